@@ -10,7 +10,9 @@ as sorted multisets with tolerance.
 Spec on the implementation (exact `Fraction` arithmetic on what the implementation returned), clauses named after the
 theorems of `FV/Props/C11.lean`: count ≥ n; every region inside exactly one region it was cut from, with its tag, the
 pieces of each former region pairwise disjoint and adding up to its area (tiling); aspect ratio ≤ r; blockages, fixed
-regions and the die untouched (same objects, same values); grid count and tiling.
+regions and the die untouched (same objects, same values); grid count and tiling; the observers are pure (reading
+`floorplanning_rectangles()` / the region lists 0, 1 or 2 times before the refinement and twice after it never changes the
+die, and the tiling clauses refer to the snapshot taken before any call).
 """
 from __future__ import annotations
 
@@ -348,8 +350,41 @@ def make_die(dy, ny):
     return Die(dy, net)
 
 
-def die_case(ctx: Ctx, mode, dy, ny, ratio, n, reqs, todo) -> None:
-    inp = {"op": "diesplit", "mode": mode, "die": dy, "netlist": ny, "ratio": ratio, "n": n, "size": n}
+def observe(ctx: Ctx, inp, d: Die, times: int, where: str, size: int):
+    """Read the die through its public observers `times` times.  Purity clause: an observation must not change the die
+    (deep snapshot of every region list before / after), `floorplanning_rectangles()` is specialised + ground regions and
+    the fixed regions, and a second call gives an equal answer.  Returns the last answer (None if nothing was read)."""
+    last = None
+    for k in range(times):
+        before = die_state(d)
+        try:
+            refinable, fixed = d.floorplanning_rectangles()
+            got = {"refinable": [rect_dict(r) for r in refinable], "fixed": [rect_dict(r) for r in fixed]}
+            _ = (len(d.ground_regions), len(d.specialized_regions), len(d.blockages), len(d.fixed_regions), d.bounding_box)
+        except Exception as ex:
+            ctx.spec_fail("operation-raised", inp, {"raised": type(ex).__name__, "where": "observers " + where}, size)
+            return last
+        after = die_state(d)
+        if after != before:
+            ctx.spec_fail("observers_pure:die-unchanged", inp,
+                          {"where": where, "call": k + 1,
+                           "before": {key: len(v) for key, v in before.items() if key != "die"},
+                           "after": {key: len(v) for key, v in after.items() if key != "die"}}, size)
+            return got
+        if got["refinable"] != before["specialized"] + before["ground"] or got["fixed"] != before["fixed"]:
+            ctx.spec_fail("floorplanningRectangles:specialized+ground", inp,
+                          {"where": where, "returned": len(got["refinable"]),
+                           "specialized": len(before["specialized"]), "ground": len(before["ground"])}, size)
+            return got
+        if last is not None and got != last:
+            ctx.spec_fail("observers_pure:same-answer-twice", inp, {"where": where}, size)
+            return got
+        last = got
+    return last
+
+
+def die_case(ctx: Ctx, mode, dy, ny, ratio, n, reqs, todo, obs: int = 0) -> None:
+    inp = {"op": "diesplit", "mode": mode, "die": dy, "netlist": ny, "ratio": ratio, "n": n, "size": n, "obs_before": obs}
     try:
         d = make_die(dy, ny)
     except Exception as ex:   # construction of the die belongs to C01: not judged here
@@ -360,7 +395,8 @@ def die_case(ctx: Ctx, mode, dy, ny, ratio, n, reqs, todo) -> None:
         st0 = die_state(d)
         inp["size"] = n + len(st0["specialized"]) + len(st0["ground"])
         blk, fx, box = list(d.blockages), list(d.fixed_regions), d.bounding_box
-        ins = st0["specialized"] + st0["ground"]
+        ins = st0["specialized"] + st0["ground"]      # the snapshot taken before any call: what the tiling refers to
+        observe(ctx, inp, d, obs, "before split_refinable_regions", inp["size"])
         try:
             d.split_refinable_regions(ratio, n)
             st1 = die_state(d)
@@ -376,8 +412,11 @@ def die_case(ctx: Ctx, mode, dy, ny, ratio, n, reqs, todo) -> None:
             if admissible or impl not in ("err:Assert", "err:IndexError"):
                 ctx.spec_fail("operation-raised", inp, {"raised": impl}, inp["size"])
         else:
-            refinable, fixed_after = d.floorplanning_rectangles()
-            outs = [rect_dict(r) for r in refinable]
+            seen = observe(ctx, inp, d, 2, "after split_refinable_regions", inp["size"])
+            outs = seen["refinable"] if seen else st1["specialized"] + st1["ground"]
+            fixed_after = d.floorplanning_rectangles()[1]
+            if die_state(d) != st1:
+                ctx.spec_fail("observers_pure:die-unchanged", inp, {"where": "after split_refinable_regions"}, inp["size"])
             if outs != st1["specialized"] + st1["ground"] or any(r["region"] == "_" for r in st1["specialized"]) \
                     or any(r["region"] != "_" for r in st1["ground"]):
                 ctx.spec_fail("dieSplit_partition", inp, {"specialized": len(st1["specialized"]), "ground": len(st1["ground"])}, inp["size"])
@@ -391,16 +430,17 @@ def die_case(ctx: Ctx, mode, dy, ny, ratio, n, reqs, todo) -> None:
         Rectangle.undefine_epsilon()
     reqs.append(f"{mode} diesplit {sc(ratio, mode)} {n} {die_in(st0, mode)}")
     todo.append(("diesplit", inp, impl))
-    ctx.case(mode, ("die", dy, ny, ratio, n), admissible,
+    ctx.case(mode, ("die", dy, ny, ratio, n, obs), admissible,
              sample={"op": "diesplit", "mode": mode, "die": dy, "ratio": ratio, "n": n, "impl": impl[:120]})
     ctx.count("op:diesplit")
+    ctx.count("history:observed-%d-times-before" % obs)
     ctx.count("ratio<2" if ratio < 2 else "ratio>=2")
     ctx.count("die:blockages" if st0["blockages"] else "die:no-blockage")
     ctx.count("die:fixed" if st0["fixed"] else "die:no-fixed")
 
 
-def grid_case(ctx: Ctx, mode, dy, ny, nr, nc, reqs, todo) -> None:
-    inp = {"op": "initgrid", "mode": mode, "die": dy, "netlist": ny, "nrows": nr, "ncols": nc, "size": nr * nc}
+def grid_case(ctx: Ctx, mode, dy, ny, nr, nc, reqs, todo, obs: int = 0) -> None:
+    inp = {"op": "initgrid", "mode": mode, "die": dy, "netlist": ny, "nrows": nr, "ncols": nc, "size": nr * nc, "obs_before": obs}
     try:
         d = make_die(dy, ny)
     except Exception:
@@ -409,6 +449,7 @@ def grid_case(ctx: Ctx, mode, dy, ny, nr, nc, reqs, todo) -> None:
     try:
         st0 = die_state(d)
         blk, fx = list(d.blockages), list(d.fixed_regions)
+        observe(ctx, inp, d, obs, "before initial_grid", inp["size"])
         try:
             d.initial_grid(nr, nc)
             st1 = die_state(d)
@@ -423,7 +464,8 @@ def grid_case(ctx: Ctx, mode, dy, ny, nr, nc, reqs, todo) -> None:
             if (clean and ok_args) or impl != "err:Assert":
                 ctx.spec_fail("operation-raised", inp, {"raised": impl, "where": "initial_grid"}, inp["size"])
         else:
-            outs = [rect_dict(r) for r in d.floorplanning_rectangles()[0]]
+            seen = observe(ctx, inp, d, 2, "after initial_grid", inp["size"])
+            outs = seen["refinable"] if seen else st1["specialized"] + st1["ground"]
             if len(outs) != nr * nc:
                 ctx.spec_fail("initialGrid_count", inp, {"returned": len(outs)}, inp["size"])
             elif not clean or not ok_args:
@@ -439,7 +481,8 @@ def grid_case(ctx: Ctx, mode, dy, ny, nr, nc, reqs, todo) -> None:
         Rectangle.undefine_epsilon()
     reqs.append(f"{mode} initgrid {nr} {nc} {die_in(st0, mode)}")
     todo.append(("initgrid", inp, impl))
-    ctx.case(mode, ("grid", dy, ny, nr, nc), True)
+    ctx.case(mode, ("grid", dy, ny, nr, nc, obs), True)
+    ctx.count("history:observed-%d-times-before" % obs)
     ctx.count("op:initgrid")
 
 
@@ -461,7 +504,7 @@ def run(ctx: Ctx) -> None:
                 "occasionally a repeated rectangle or the empty list), r from 12 dyadic values in [1.4375, 4] (Q) or 9 decimal values "
                 "in [1.42, 3] (F), n in 1..64 (1..300 thorough), plus inadmissible arguments (n = 0, r ≤ 1.415); dies built from YAML on a "
                 "random 1..4 × 1..4 lattice with blockages, tagged regions and fixed modules of a netlist (25% empty dies), refined through "
-                "Die.split_refinable_regions, observed through floorplanning_rectangles / blockages / fixed_regions; Die.initial_grid "
+                "Die.split_refinable_regions, observed through floorplanning_rectangles / blockages / fixed_regions, with a HISTORY: the observers are read 0, 1 or 2 times before the refinement and twice after it (purity clause: an observation never changes the die, two reads agree; the tiling refers to the snapshot taken before any call); Die.initial_grid "
                 "with 0..6 rows / columns on clean and non-clean dies; random heapq scripts with keys in -4..4.  Non-trivial = admissible "
                 "arguments (n ≥ 1, r > 1.415, at least one refinable region)")
     ctx.assumptions.append("at least one refinable region (an empty list makes heappop raise IndexError; modelled, excluded from the theorems)")
@@ -474,7 +517,9 @@ def run(ctx: Ctx) -> None:
     for (w, h, ratio, n) in [(4.0, 4.0, 1.5, 2), (4.0, 4.0, 1.5, 3), (2.0, 3.0, 1.5, 2), (4.0, 5.0, 1.4375, 4), (1.0, 1.0, 1.875, 9)]:
         split_case(ctx, "Q", [{"cx": w / 2, "cy": h / 2, "w": w, "h": h, "region": "_", "fixed": False, "hard": False, "loc": "X"}],
                    ratio, n, reqs, todo)
-    die_case(ctx, "Q", "4.0x4.0", None, 1.5, 2, reqs, todo)
+    for obs in (0, 1, 2):
+        die_case(ctx, "Q", "4.0x4.0", None, 1.5, 2, reqs, todo, obs=obs)
+        grid_case(ctx, "Q", "4.0x2.0", None, 2, 3, reqs, todo, obs=obs)
     for i in range(_n(ctx, 2000, 15000)):
         mode = "Q" if i % 3 != 2 else "F"
         ratio, n = pick(rng, mode, nmax)
@@ -487,7 +532,7 @@ def run(ctx: Ctx) -> None:
         dy, ny = gen_die_yaml(rng, mode)
         if rng.random() < 0.03:
             ratio, n = rng.choice([(1.25, n), (ratio, 0)])
-        die_case(ctx, mode, dy, ny, ratio, n, reqs, todo)
+        die_case(ctx, mode, dy, ny, ratio, n, reqs, todo, obs=rng.choice([0, 1, 1, 2]))
     for i in range(_n(ctx, 500, 8000)):
         mode = "Q" if i % 3 != 2 else "F"
         if rng.random() < 0.75:
@@ -497,7 +542,8 @@ def run(ctx: Ctx) -> None:
                 dy = f"{rng.randint(1, 40) * u!r}x{rng.randint(1, 40) * u!r}"
         else:
             dy, ny = gen_die_yaml(rng, mode)
-        grid_case(ctx, mode, dy, ny, rng.choice([0, 1, 1, 2, 3, 4, 5, 6]), rng.choice([0, 1, 1, 2, 3, 4, 5, 6]), reqs, todo)
+        grid_case(ctx, mode, dy, ny, rng.choice([0, 1, 1, 2, 3, 4, 5, 6]), rng.choice([0, 1, 1, 2, 3, 4, 5, 6]), reqs, todo,
+                  obs=rng.choice([0, 1, 1, 2]))
     for _ in range(_n(ctx, 2000, 40000)):
         heap_case(ctx, gen_heap_script(rng), reqs, todo)
     replies = ctx.model(reqs)
@@ -512,9 +558,9 @@ def _replay_one(ctx, inp, reqs, todo) -> None:
     if op == "splitrects":
         split_case(ctx, inp["mode"], inp["rects"], inp["ratio"], inp["n"], reqs, todo)
     elif op == "diesplit":
-        die_case(ctx, inp["mode"], inp["die"], inp["netlist"], inp["ratio"], inp["n"], reqs, todo)
+        die_case(ctx, inp["mode"], inp["die"], inp["netlist"], inp["ratio"], inp["n"], reqs, todo, obs=inp.get("obs_before", 0))
     elif op == "initgrid":
-        grid_case(ctx, inp["mode"], inp["die"], inp["netlist"], inp["nrows"], inp["ncols"], reqs, todo)
+        grid_case(ctx, inp["mode"], inp["die"], inp["netlist"], inp["nrows"], inp["ncols"], reqs, todo, obs=inp.get("obs_before", 0))
     elif op == "heap":
         heap_case(ctx, inp["script"], reqs, todo)
 
